@@ -18,6 +18,8 @@ RULE = ("(merge) datasets of 2..40 generated floats (families: plain, constant, 
         "states of every draw. Oracle: count = chains*draws >= requested; k sequence = [burn_in, steps, ...]; each draw continues "
         "the previous chains; mean/variance/std_error = one-pass numpy statistics of the per-draw apply values concatenated. "
         "Non-trivial = >= 2 draws and num_chains not dividing num_samples, or num_chains = 1.")
+RULE_EXT = ('Extended as built: float32 user chains, 257-300 chains, composite observables over a shared view, value continuity between draws, default burn_in, Observable.sample under an identical torch seed, System.statistics_from_samples vs each observable alone.')
+RULE = RULE + " " + RULE_EXT
 ASSUMPTIONS = ["total drawn count >= 2 (the unbiased variance of a single value is undefined)", "rtol 1e-9 + atol 1e-12*scale^2 on variances"]
 
 
